@@ -193,7 +193,7 @@ def deser_job(prog, entry, deadline, seed=0, depth=2, symbolic_numbers=False):
         if r[0] == 'abort': return
         if r[0] == 'unsupported': S.inconclusive(f'deserializer {entry}: ' + XP.short_unsupported(r[1])); return
         acc = []; SY.lazy_null_constraints(ex.u_v, acc)
-        sat, m = eng.check(ex.pc + acc)
+        sat, m = SY.check_pinned(eng, ex.pc, acc)
         if not sat: return
         d = SY.tagged(ex, ex.u_v, m)
         if r[0] == 'panic': S.cand('c05:deserialize-panic', f'panics: {r[1]}', {'value': d, 'entry': entry}, {'op': 'deser', 'entry': entry, 'value': d}, expected='no panic'); return
